@@ -37,6 +37,7 @@ structure Obs where
   pk : Nat := 1             -- scripted: how the function ends abnormally (1 panic(string), 2 panic(error value), 3 runtime.Goexit)
   ek : Nat := 1             -- scripted: class of the error value (1 pointer, 2 wrapped, 3 value-typed, 4 typed nil)
   ep : Nat := 0             -- the public entry point of the user the call went through
+  nilv : Bool := false      -- scripted: the function returns (nil, nil)
   cx : Nat := 0             -- scripted: the context passed to a ...Ctx entry point (0 Background, 1 far deadline, 2 cancelled)
   lkerr : Bool := false     -- observed: the call returned the lookup error of its flight (`err=lk`: context.Canceled)
   deriving Repr
@@ -69,7 +70,9 @@ def noStaleViolation (h : List Obs) (r : Obs) : Option String :=
   match r.val with
   | none =>
     -- the zero values: only as joiner of a flight whose function panicked (what the code does; `sf_panic_joiners_zero`)
-    if !r.ran && r.err.isNone && h.any (fun l => l.key = r.key && l.ran && l.spanic && l.id ≠ r.id && callsOverlap l r) then none
+    if !r.ran && r.err.isNone && h.any (fun l => l.key = r.key && l.ran && (l.spanic || l.nilv) && l.id ≠ r.id && callsOverlap l r) then none
+    -- … or the caller's own execution returned (nil, nil)
+    else if r.ran && r.nilv && r.err.isNone then none
     else some s!"no-stale: call {r.id} (key {r.key}) got a value that no execution produced"
   | some v =>
     match h.find? (·.id = v) with
@@ -92,7 +95,7 @@ def freshViolation (r : Obs) : Option String :=
   | some f =>
     if f && !r.ran then some s!"one-fresh: call {r.id} is reported fresh but did not execute"
     else if !f && r.ran then some s!"one-fresh: call {r.id} executed but is not reported fresh"
-    else if f && r.val ≠ some r.id then some s!"one-fresh: call {r.id} is fresh but returns the result of another execution"
+    else if f && r.val ≠ (if r.nilv then none else some r.id) then some s!"one-fresh: call {r.id} is fresh but returns the result of another execution"
     else none
 
 def stuckViolation (r : Obs) : Option String :=
@@ -129,7 +132,7 @@ def sfViolations (h : List Obs) : List (Nat × String) :=
 def ownFnViolation (r : Obs) : Option String :=
   if r.runs ≠ 1 then some s!"own-fn-once: function of call {r.id} (key {r.key}) executed {r.runs} times"
   else if r.panicked then none    -- the caller's own function panicked (see `panicViolation`): nothing is returned
-  else if r.val ≠ some r.id then some s!"own-fn-once: call {r.id} returned the value of {r.val}"
+  else if r.val ≠ (if r.nilv then none else some r.id) then some s!"own-fn-once: call {r.id} returned the value of {r.val}"
   else if r.err ≠ (if r.serr then some r.id else none) then some s!"own-fn-once: call {r.id} returned the error of {r.err}"
   else none
 
